@@ -49,7 +49,7 @@ def handleLineRec : List String → String
   | ["tb", v, off] => hx v fun b => nat off fun o => boolStr (isThematicBreak b o)
   | ["pli", v] => hx v fun b => m6 (parseListItem b)
   | ["mli", v, strict] => hx v fun b => m6 (matchesListItem b (strict == "1"))
-  | ["clo", v, m4] => hx v fun b => int m4 fun m => res (calcListOffset b m) toString
+  | ["clo", v, m4, lo] => hx v fun b => int m4 fun m => nat lo fun lo => res (calcListOffset b m lo) toString
   | ["lastoff", os] => match natsOf os with
       | some l => toString (lastOffset l)
       | none => bad
@@ -61,7 +61,7 @@ def handleLineRec : List String → String
       | none => "0"
   | ["liopen", src, adv, pad, last] => lr src adv pad fun r => int last fun lo =>
       -- a list without items has lastOffset 0
-      res (listItemOpen r.peek lo.toNat) fun
+      res (listItemOpen r.peek lo.toNat r.lineOffset) fun
       | none => s!"0 {r.start} {r.padding}"
       | some io =>
         match io.child with
